@@ -294,6 +294,15 @@ def rule_entry(facts):
         ok = any(x[0] == "call" and x[1] == "then_ignore" and any(("arg", 1) in a for a in x[3])
                  and any(any(y[0] == "call" and y[1] == "repeated" and any(any(z[0] == "call" and z[1] == "any" for z in aa) for aa in y[3]) for y in a) for a in x[3])
                  for x in ret)
+        if not ok:
+            # the same value written as the struct literal that `then_ignore` builds
+            def _rep_any(a):
+                return any(y[0] == "call" and y[1] == "repeated" and any(any(z[0] == "call" and z[1] == "any" for z in aa) for aa in y[3]) for y in a)
+            for x in ret:
+                if x[0] == "aggf" and x[1].split("::")[-2:-1] == ["ThenIgnore"] or (x[0] == "aggf" and "ThenIgnore" in x[1]):
+                    d = dict(x[2])
+                    if set(d.get("parser_a", ())) == {("arg", 1)} and _rep_any(d.get("parser_b", ())):
+                        ok = len(ret) == 1
         r.ob(ok)
         r.samples.append({"lazy": fmt_roots(ret)})
         if not ok:
